@@ -213,5 +213,24 @@ Theorem C20_energy_at_epoch_or_drag_free_small_e : forall e0 i r0 w m n b ts,
 Proof. exact P_Sgp4EnergyFrozen.energy_when_frozen3. Qed.
 Print Assumptions C20_energy_at_epoch_or_drag_free_small_e.
 
+(* THE ORBIT-SUMMARY CLAUSE, first half: the summary exposed with the elements (OrbitElements.semi_major_axis, .perigee) and
+   the quantities the propagation itself uses (_SGDP4Base: aodp = the report's a0'', perigee height) are computed by two
+   different spellings in orbital.py - the summary raises 1 - e0^2 to 2/3 where the report and the propagator have 3/2.  For
+   every element set with e0 <= 0.4 and 6.4 <= n <= 17 rev/day (any inclination) they differ by at most 1.3 km, far inside
+   the 30 km the property allows; so the summary describes the orbit that C20_distance_between_perigee_and_apogee bounds. *)
+From PyOrb.proofs Require P_OeSummary.
+Theorem C20_summary_semi_major_axis : forall e0 i r0 w m n b, 0 <= e0 <= 4 / 10 -> 64 / 10 <= n <= 17 ->
+  Rabs (gen_oe_semi_major_axis e0 i r0 w m n b - gen_sgp4_aodp e0 i r0 w m n b) * XKMPER <= 13 / 10.
+Proof.
+  intros e0 i r0 w m n b He Hn. unfold XKMPER. replace (6378135 / 1000) with (1275627 / 200) by lra.
+  exact (P_OeSummary.oe_semi_major_axis_close e0 i r0 w m n b He Hn).
+Qed.
+Print Assumptions C20_summary_semi_major_axis.
+
+Theorem C20_summary_perigee : forall e0 i r0 w m n b, 0 <= e0 <= 4 / 10 -> 64 / 10 <= n <= 17 ->
+  Rabs (gen_oe_perigee e0 i r0 w m n b - gen_sgp4_perigee e0 i r0 w m n b) <= 13 / 10.
+Proof. exact P_OeSummary.oe_perigee_close. Qed.
+Print Assumptions C20_summary_perigee.
+
 Example C20_inhabited : 0 < 7000 * (15 / 2).
 Proof. lra. Qed.
